@@ -289,6 +289,15 @@ func fieldByIndex(r rvalue, st *types.Struct, idx int) rvalue {
 	return out
 }
 
+// mapIterState stands for a *reflect.MapIter.
+type mapIterState struct {
+	m      *omap
+	kt, et types.Type
+	ro     bool
+	keys   []value
+	pos    int
+}
+
 func rFieldByName(r rvalue, name string) rvalue {
 	mustBe(r, "reflect.Value.FieldByName", reflect.Struct)
 	var pkg *types.Package
@@ -910,6 +919,45 @@ func (i *interpreter) reflectExternals() map[string]externalFn {
 				out = append(out, rvalue{t: kt, v: m.keys[j], ro: r.ro})
 			}
 			return out
+		},
+		// MapRange: the keys present when the iterator was made, in the (explored) order; a key deleted
+		// before it is reached is skipped, keys added meanwhile are not produced (one of the behaviours Go allows)
+		"(reflect.Value).MapRange": func(fr *frame, a []value) value {
+			r := rv(a[0])
+			mustBe(r, "reflect.Value.MapRange", reflect.Map)
+			m := r.get().(*omap)
+			it := &mapIterState{m: m, kt: r.t.Underlying().(*types.Map).Key(), et: r.t.Underlying().(*types.Map).Elem(), ro: r.ro, pos: -1}
+			for _, j := range fr.i.mapOrder(m) {
+				it.keys = append(it.keys, m.keys[j])
+			}
+			return it
+		},
+		"(*reflect.MapIter).Next": func(fr *frame, a []value) value {
+			it := a[0].(*mapIterState)
+			for it.pos+1 < len(it.keys) {
+				it.pos++
+				if _, ok := it.m.lookup(it.keys[it.pos]); ok {
+					fr.i.onMapAccess(fr, nil, it.m, false)
+					return true
+				}
+			}
+			it.pos = len(it.keys)
+			return false
+		},
+		"(*reflect.MapIter).Key": func(fr *frame, a []value) value {
+			it := a[0].(*mapIterState)
+			if it.pos < 0 || it.pos >= len(it.keys) {
+				panic(reflectPanic("MapIter.Key called before Next"))
+			}
+			return rvalue{t: it.kt, v: it.keys[it.pos], ro: it.ro}
+		},
+		"(*reflect.MapIter).Value": func(fr *frame, a []value) value {
+			it := a[0].(*mapIterState)
+			if it.pos < 0 || it.pos >= len(it.keys) {
+				panic(reflectPanic("MapIter.Value called before Next"))
+			}
+			v, _ := it.m.lookup(it.keys[it.pos])
+			return rvalue{t: it.et, v: v, ro: it.ro}
 		},
 		"(reflect.Value).SetMapIndex": func(fr *frame, a []value) value {
 			rSetMapIndex(rv(a[0]), rv(a[1]), rv(a[2]))
